@@ -73,6 +73,18 @@ class Unsupported(Exception):
     pass
 
 
+def strip_generics(t):
+    out, depth = "", 0
+    for ch in t:
+        if ch == "<":
+            depth += 1
+        elif ch == ">":
+            depth -= 1
+        elif depth == 0:
+            out += ch
+    return out
+
+
 class Path:
     def __init__(self):
         self.cells = {}
@@ -100,6 +112,9 @@ class Exec:
     def __init__(self, fn, summaries=None, max_paths=4000, arg_prefix="a"):
         self.fn = fn
         self.arg_prefix = arg_prefix
+        self.lroot = "L:"       # root prefix of this frame's locals (inlined callees get "L<k>:")
+        self.fns = None         # all functions of the dump (for inlining crate-local helpers)
+        self.depth = 0
         self.paths = []
         self.decls = {}
         self.counter = 0
@@ -189,7 +204,7 @@ class Exec:
         """-> (root, path, type)"""
         k = pl[0]
         if k == "local":
-            return "L:" + pl[1], (), self.fn.locals.get(pl[1], "usize")
+            return self.lroot + pl[1], (), self.fn.locals.get(pl[1], "usize")
         if k == "field":
             r, pa, _ = self.place(p, pl[1])
             return r, pa + (pl[2],), pl[3]
@@ -396,14 +411,16 @@ class Exec:
             self.decls = p0.decls
         p0.decls = self.decls
         for i, (a, t) in enumerate(self.fn.args):
+            if (self.lroot + a, ()) in p0.cells or (self.lroot + a, ()) in p0.links:
+                continue   # bound by the caller (inlined frame)
             t = t.strip()
             name = "%s%d" % (self.arg_prefix, i + 1)
             if t.startswith("&") or t.startswith("*"):
-                p0.cells[("L:" + a, ())] = ("ref", "O:arg%d" % (i + 1), ())
+                p0.cells[(self.lroot + a, ())] = ("ref", "O:arg%d" % (i + 1), ())
             elif is_scalar_type(t):
-                p0.cells[("L:" + a, ())] = self.fresh_val(p0, name, t if t in INT_W or t == "bool" else "usize")
+                p0.cells[(self.lroot + a, ())] = self.fresh_val(p0, name, t if t in INT_W or t == "bool" else "usize")
             else:
-                p0.links[("L:" + a, ())] = ("O:arg%d" % (i + 1), ())
+                p0.links[(self.lroot + a, ())] = ("O:arg%d" % (i + 1), ())
         work = [(p0, "bb0")]
         done = []
         while work:
@@ -523,8 +540,78 @@ class Exec:
                         else:
                             out.append((q, ret))
                     return out
+            inl = self.inline_call(p, lhs, callee, argv, ret)
+            if inl is not None:
+                return inl
             raise Unsupported("callee without summary: " + callee)
         raise Unsupported("terminator: " + t)
+
+    INLINE_IDS = [0]
+
+    def lookup_fn(self, callee, nargs):
+        """a function of the same crate called by path: `remove::Remove::<'_, P>::tail_len` is defined as
+        `remove::<impl at src/ops/remove.rs:..>::tail_len`; matched on (first path segment, method name, arity); must be unique"""
+        if not self.fns:
+            return None
+        plain = strip_generics(callee)
+        segs = [x for x in plain.split("::") if x]
+        if not segs:
+            return None
+        meth = segs[-1]
+        cands = [f for f in self.fns if f.name.split("::")[-1] == meth and len(f.args) == nargs]
+        if len(cands) > 1 and len(segs) > 1:
+            c2 = [f for f in cands if strip_generics(f.name).split("::")[0] == segs[0]] or [f for f in cands if ("/" + segs[0] + ".rs") in f.name]
+            cands = c2 or cands
+        if len(cands) > 1 and len(segs) > 2:
+            c3 = [f for f in cands if segs[-2] in f.name or ("impl at" in f.name)]
+            cands = c3 or cands
+        return cands[0] if len(cands) == 1 else None
+
+    def inline_call(self, p, lhs, callee, argv, ret):
+        if self.depth >= 4 or callee.startswith("core::") or callee.startswith("std::") or callee.startswith("alloc::"):
+            return None
+        if callee.startswith("<"):
+            # `<module::Type<..> as Trait>::method`: resolvable when the implementing type is a concrete type of this crate
+            m = re.match(r"^<(.+) as ([^>]+(?:<.*>)?)>::(\w+)(?:::<.*>)?$", callee)
+            if not m:
+                return None
+            ty = strip_generics(m.group(1)).strip().lstrip("&").replace("mut ", "").strip()
+            if "::" not in ty:
+                return None    # a type parameter: not resolvable before monomorphisation
+            callee = ty.split("::")[0] + "::" + ty.split("::")[-1] + "::" + m.group(3)
+        fn = self.lookup_fn(callee, len(argv))
+        if fn is None or fn.has_loop():
+            return None
+        Exec.INLINE_IDS[0] += 1
+        sub = Exec(fn, self.summaries, self.max_paths)
+        sub.lroot = "L%d:" % Exec.INLINE_IDS[0]
+        sub.fns, sub.depth, sub.counter = self.fns, self.depth + 1, self.counter + 1
+        for attr in ("vec_root",):
+            if hasattr(self, attr):
+                setattr(sub, attr, getattr(self, attr))
+        for (a, t), v in zip(fn.args, argv):
+            sub.write(p, sub.lroot + a, (), v)
+        saved = p.outcome
+        out = []
+        for q in sub.run(init=p):
+            self.counter = max(self.counter, sub.counter)
+            if q.outcome is not None and q.outcome[0] == "return":
+                q.outcome = saved
+                if lhs is not None:
+                    rt = (fn.ret or "()").strip()
+                    if rt != "()":
+                        v = q.cells.get((sub.lroot + "_0", ()))
+                        if v is None:
+                            v = ("agg", sub.lroot + "_0", ()) if not is_scalar_type(rt) else sub.read_cell(q, sub.lroot + "_0", (), rt)
+                        self.set_ret(q, lhs, v)
+                if ret is None:
+                    q.outcome = ("panic", "diverging call " + callee)
+                    out.append((q, None))
+                else:
+                    out.append((q, ret))
+            else:
+                out.append((q, None))   # panic / unsupported inside the callee ends the path
+        return out
 
     # helpers for summaries
     def set_ret(self, p, lhs, v):
@@ -553,9 +640,9 @@ def s_pseudo(field):
     return h
 
 
-def s_real_field(idx):
+def s_real_field(role):
     def h(ex, p, callee, argv, lhs):
-        ex.set_ret(p, lhs, ex.field_of_ref(p, argv[0], idx))
+        ex.set_ret(p, lhs, ex.field_of_ref(p, argv[0], POS[role] if isinstance(role, str) else role))
     return h
 
 
@@ -567,11 +654,12 @@ def s_vecraw(ex, p, callee, argv, lhs):
 def s_event(name, invalidate=()):
     def h(ex, p, callee, argv, lhs):
         # remember what the vector's len cell holds when user-visible work (drops / moves) happens
-        snap = p.cells.get(("O:vecraw", (2,)))
+        snap = p.cells.get(("O:vecraw", (POS["vec_len"],)))
         p.events.append((name, callee, [a for a in argv], snap))
         # capacity-like pseudo fields of the receiver become unknown
         if argv and argv[0][0] == "ref":
             for f in invalidate:
+                f = POS.get(f, f)
                 ex.counter += 1
                 ex.write(p, argv[0][1], argv[0][2] + (f,), ex.fresh_val(p, "after_%s_%s_%d" % (name, str(f).strip("$"), ex.counter), "usize"))
         if lhs is not None:
@@ -689,6 +777,19 @@ def s_overflowing(op):
     return h
 
 
+def s_ptr_eq(ex, p, callee, argv, lhs):
+    ex.set_ret(p, lhs, ex.binop(p, "Eq", argv[0], argv[1], None))
+
+
+def s_mem_take(ex, p, callee, argv, lhs):
+    d = argv[0]
+    if d[0] != "ref":
+        raise Unsupported("mem::take on a non-reference")
+    old = ex.read_cell(p, d[1], d[2], "usize")
+    ex.write(p, d[1], d[2], ("bv", bvconst(0, ex.as_bv(old)[2]), ex.as_bv(old)[2]) if old[0] == "bv" else ("bool", "false"))
+    ex.set_ret(p, lhs, old)
+
+
 def s_mem_replace(ex, p, callee, argv, lhs):
     """core::mem::replace::<scalar>(&mut place, new) -> old"""
     d = argv[0]
@@ -804,18 +905,23 @@ def s_ptr_add(ex, p, callee, argv, lhs):
 # an allocation); deciding that from the 64-bit products would need multiplication reasoning the solvers do not finish.
 ELEM_PTRS = {}
 
+# positions of the private fields the specifications and summaries refer to, by role. Filled from the struct literals of
+# the current MIR dump (obligations.set_layout), so that reordering private fields is not a change of behaviour here.
+POS = {"vec_mem": 1, "vec_len": 2, "heap_ptr": 0, "heap_size": 1, "heap_layout": 2, "iter_index": 1, "iter_end": 2,
+       "drain_iter": 0, "drain_start": 1, "drain_end": 2, "drain_olen": 3}
+
 
 def _vec_cells(ex, p):
     """(base pointer, element size) of the vector a kernel works on: handle-based kernels reach it through
     IAnyVecRawPtr (pseudo object O:vecraw), AnyVecRaw methods are called on it directly (O:arg1, field 0 = mem)"""
     if getattr(ex, "vec_root", "O:vecraw") == "O:vecraw":
         return ex.read_cell(p, "O:vecraw", ("$base",), "usize"), ex.read_cell(p, "O:vecraw", ("$layout", "size"), "usize")
-    return ex.read_cell(p, "O:arg1", (1, "$base"), "usize"), ex.read_cell(p, "O:arg1", ("$layout", "size"), "usize")
+    return ex.read_cell(p, "O:arg1", (POS["vec_mem"], "$base"), "usize"), ex.read_cell(p, "O:arg1", ("$layout", "size"), "usize")
 
 
 def s_elem_ptr(ex, p, callee, argv, lhs):
     """element_ptr_at / element_mut_ptr_at(any_vec_ptr, index) = base + index x element size (C13)"""
-    snap = p.cells.get(("O:vecraw", (2,)))
+    snap = p.cells.get(("O:vecraw", (POS["vec_len"],)))
     p.events.append(("element_ptr_at", callee, [a for a in argv], snap))
     base, es = _vec_cells(ex, p)
     t = "(bvadd %s (bvmul %s %s))" % (base[1], es[1], ex.as_bv(argv[1])[1])
@@ -851,13 +957,13 @@ def s_copy(kind):
             count = n
         else:
             nbytes, count = n, None
-        snap = p.cells.get((getattr(ex, "vec_root", "O:vecraw"), (2,)))
+        snap = p.cells.get((getattr(ex, "vec_root", "O:vecraw"), (POS["vec_len"],)))
         p.events.append(("copy", callee, [("bv", src, 64), ("bv", dst, 64), ("bv", nbytes, 64)], snap, "nonoverlapping" in callee, count))
     return h
 
 
 def s_move_into(ex, p, callee, argv, lhs):
-    snap = p.cells.get((getattr(ex, "vec_root", "O:vecraw"), (2,)))
+    snap = p.cells.get((getattr(ex, "vec_root", "O:vecraw"), (POS["vec_len"],)))
     p.events.append(("move_into", callee, [argv[1], argv[2]], snap))
 
 
@@ -870,10 +976,10 @@ def s_size_of(ex, p, callee, argv, lhs):
 
 def s_reserve_one(ex, p, callee, argv, lhs):
     """may reallocate: base pointer and capacity are new unknowns afterwards; len and element layout are untouched"""
-    snap = p.cells.get(("O:arg1", (2,)))
+    snap = p.cells.get(("O:arg1", (POS["vec_len"],)))
     p.events.append(("reserve_one", callee, [], snap))
     ex.counter += 1
-    ex.write(p, "O:arg1", (1, "$base"), ex.fresh_val(p, "base_after_reserve_%d" % ex.counter, "usize"))
+    ex.write(p, "O:arg1", (POS["vec_mem"], "$base"), ex.fresh_val(p, "base_after_reserve_%d" % ex.counter, "usize"))
     ex.write(p, "O:arg1", ("$capacity",), ex.fresh_val(p, "cap_after_reserve_%d" % ex.counter, "usize"))
 
 
@@ -933,11 +1039,11 @@ SUMMARIES = [
     (r"AnyVecRaw::<.*>::capacity$|AnyVec::<.*>::capacity$|AnyVecTyped::<.*>::capacity$", s_pseudo("$capacity")),
     (r"AnyVec::<.*>::len$|AnyVecTyped::<.*>::len$", s_pseudo("$len")),
     (r"AnyVec::<.*>::element_layout$|AnyVecRaw::<.*>::element_layout$|as Mem>::element_layout$", s_layout_val),
-    (r"<HeapMem as Mem>::size$", s_real_field(1)),
+    (r"<HeapMem as Mem>::size$", s_real_field("heap_size")),
     (r"as Mem>::size$", s_pseudo("$capacity")),
     (r"as Mem>::expand$", s_event("expand", ("$capacity",))),
     (r"as MemResizable>::expand_exact$", s_event("expand_exact", ("$capacity",))),
-    (r"as MemResizable>::resize$", s_event("resize", ("$capacity", 1))),
+    (r"as MemResizable>::resize$", s_event("resize", ("$capacity", "heap_size"))),
     (r"as Mem>::as_ptr$|as Mem>::as_mut_ptr$", s_pseudo("$base")),
     (r"core::cmp::max::<usize>$|cmp::max::<usize>$", s_minmax("max")),
     (r"core::cmp::min::<usize>$|cmp::min::<usize>$", s_minmax("min")),
@@ -964,6 +1070,8 @@ SUMMARIES = [
     (r"<impl usize>::wrapping_mul$", s_arith("wrapping_mul")),
     (r"Option::<.*>::unwrap$|Option::<.*>::expect$", s_unwrap),
     (r"mem::replace::<(usize|isize|u8|u16|u32|u64|bool)>$", s_mem_replace),
+    (r"mem::take::<(usize|isize|u8|u16|u32|u64|bool)>$", s_mem_take),
+    (r"ptr::eq::<.*>$|ptr::addr_eq::<.*>$", s_ptr_eq),
     (r"mem::swap::<(usize|isize|u8|u16|u32|u64|bool)>$", s_mem_swap),
     (r"Option::<.*>::is_some$", s_is_some(True)),
     (r"Option::<.*>::is_none$", s_is_some(False)),
@@ -987,7 +1095,6 @@ SUMMARIES = [
     (r"utils::move_elements_at::<.*>$", s_event("move_elements_at")),
     (r"iter::Iter::<.*>::new$|Iter::<'_, .*>::new$", s_event("iter_new")),
     (r"element_ptr_at::<.*>$|element_mut_ptr_at::<.*>$", s_elem_ptr),
-    (r"Remove<.*> as Operation>::bytes$", s_remove_bytes),
     (r"<impl \*(const|mut) .+>::cast::<.*>$", s_passthrough),
     (r"ptr::copy::<.*>$|ptr::copy_nonoverlapping::<.*>$|intrinsics::copy::<.*>$|intrinsics::copy_nonoverlapping::<.*>$", s_copy("typed")),
     (r"(^|::)copy_bytes$|(^|::)copy_nonoverlapping_value::<.*>$", s_copy("bytes")),
@@ -997,7 +1104,9 @@ SUMMARIES = [
     (r"Unknown::is::<.*>$", s_fresh_bool("unknown_is")),
     (r"ElementPointer::<.*>::new$", s_fresh("element_pointer")),
     (r"IteratorItem<.*>>::element_to_item$", s_passthrough),
-    (r"<impl \*(const|mut) u8>::add$", s_ptr_add),
-    (r"<impl \*(const|mut) .+>::add$", s_typed_ptr_add),
+    (r"<impl \*(const|mut) u8>::(add|offset|byte_add|byte_offset|wrapping_add|wrapping_byte_add)$", s_ptr_add),
+    (r"<impl \*(const|mut) .+>::(byte_add|byte_offset|wrapping_byte_add)$", s_ptr_add),
+    (r"<impl \*(const|mut) .+>::(add|offset|wrapping_add)$", s_typed_ptr_add),
+    (r"<impl \*(const|mut) .+>::(cast_const|cast_mut)$", s_passthrough),
     (r"slice::from_raw_parts(_mut)?::<.*>$|from_raw_parts(_mut)?::<'?_?,? ?u8>$|from_raw_parts(_mut)?::<.*>$", s_slice),
 ]
